@@ -4,10 +4,15 @@
 (* (M: lock-step product explored by TLC) and by TraceSimModel (binding: TLC       *)
 (* re-executes recorded scenarios and compares with what the real simulators did). *)
 EXTENDS Integers, Sequences, FiniteSets, TLC
-CONSTANT InnerFix  \* FALSE = the code: only the first minute of a chunk is jump-fixed; for the others high/low are widened to
-                   \*         the previous close but the open is kept, and the candidates are sorted on the raw minutes;
-                   \* TRUE  = proposed repair (fixes/C12-fast-inner-minutes-jump-fix.diff): every minute of the chunk is
-                   \*         jump-fixed against the previous one before matching, as the normal simulator does
+CONSTANTS
+  InnerFix,   \* TRUE  = the code since 651f7be3: every minute of a chunk is jump-fixed against the previous one before
+              \*         matching, as the normal simulator does;
+              \* FALSE = the former defect (C12 finding inner-gap-fill): only the first minute of a chunk was jump-fixed, for the
+              \*         others high/low were widened to the previous close but the open was kept
+  PerMinute   \* TRUE  = the code since adf54ef1: inside the chunk the candidates are selected and sorted per minute on that
+              \*         minute's candle and re-selected + re-sorted on the rest of it after a fill (the normal loop);
+              \* FALSE = the former loop (C02 findings): selected on the chunk aggregate, sorted once over the minutes, first
+              \*         included candidate in list order, re-selected on the aggregate WITHOUT sorting after a fill
 
 Min2(a, b) == IF a < b THEN a ELSE b
 Max2(a, b) == IF a > b THEN a ELSE b
@@ -99,13 +104,15 @@ Exec(s, oid, minute, hc) ==
      ELSE [s EXCEPT !.err = "position-size"]
 
 \* ---- NORMAL simulator: one minute ----
-RECURSIVE LoopN(_, _, _)
-LoopN(s, temp, minute) ==
+RECURSIVE LoopN(_, _, _, _)
+LoopN(s, temp, minute, ig) ==
   LET ex0 == SelectSeq(s.ords, LAMBDA x : Includes(temp, x.p))
       ex  == IF Len(ex0) > 1 THEN SortExec(ex0, <<temp>>, 1, <<>>) ELSE ex0
   IN IF ex = <<>> \/ s.err # "none" THEN s
-     ELSE LET sp == Split(temp, ex[1].p) IN LoopN(Exec(s, ex[1].id, minute, sp[1].c), sp[2], minute)
-MinuteN(s, cd, minute) == [LoopN(s, cd, minute) EXCEPT !.cur = cd.c]
+     ELSE LET sp == Split(temp, ex[1].p)
+              s1 == Exec(s, ex[1].id, minute, sp[1].c)
+          IN LoopN([s1 EXCEPT !.gap = @ \/ ig], sp[2], minute, ig)
+MinuteN(s, cd, minute) == [LoopN(s, cd, minute, FALSE) EXCEPT !.cur = cd.c]
 \* the minutes of one chunk, each jump-fixed against the previous raw close
 RECURSIVE MinutesN(_, _, _, _, _)
 MinutesN(s, raw, pc, k, base) ==
@@ -138,12 +145,20 @@ RECURSIVE MinutesF(_, _, _, _, _, _, _)
 MinutesF(s, ids, cs, k, base, real, raw) ==
   IF k > Len(cs) THEN s
   ELSE LET r == LoopF(s, ids, Ext(cs, k), base + k, real, InnerGap(raw, k)) IN MinutesF(r.s, r.ids, cs, k + 1, base, real, raw)
+\* the per-minute loop of the repaired fast simulator: the normal loop on each (jump-fixed) minute of the chunk
+RECURSIVE MinutesP(_, _, _, _, _)
+MinutesP(s, cs, k, base, raw) ==
+  IF k > Len(cs) THEN s
+  ELSE MinutesP([LoopN(s, Ext(cs, k), base + k, InnerGap(raw, k)) EXCEPT !.cur = cs[k].c], cs, k + 1, base, raw)
 ChunkF(s, raw, pc, base) ==
   LET cs   == [k \in 1..Len(raw) |-> IF k = 1 THEN FixJump(pc, raw[1]) ELSE IF InnerFix THEN FixJump(raw[k - 1].c, raw[k]) ELSE raw[k]]
       real == Agg(cs)
       ex0  == SelectSeq(s.ords, LAMBDA x : Includes(real, x.p))
       ex   == IF Len(ex0) > 1 THEN SortExec(ex0, cs, 1, <<>>) ELSE ex0
-      s2   == IF ex0 = <<>> THEN s ELSE MinutesF(s, Ids(ex), cs, 1, base, real, raw)
+      \* quirk kept by both variants: the minute loop only runs when the chunk aggregate selects at least one order
+      s2   == IF ex0 = <<>> THEN s
+              ELSE IF PerMinute THEN MinutesP(s, cs, 1, base, raw)
+              ELSE MinutesF(s, Ids(ex), cs, 1, base, real, raw)
   IN [s2 EXCEPT !.cur = raw[Len(raw)].c]
 
 \* ---- the strategy step at a trading-candle boundary (Strategy._check + _execute_market_orders) ----
